@@ -215,6 +215,34 @@ class Cursor:
                 else:
                     out += self.cond(e["b"], s)
             return out
+        if k == "Match" and e.get("src") not in ("TryDesugar", "ForLoopDesugar") and e.get("arms") \
+                and all(isinstance(lit_value(a["body"]), bool) for a in e["arms"]):
+            # `matches!(x, pat if guard)`: a match whose arms are boolean literals
+            outs = []
+            for kind, s, v in self.run(e["scrut"], st):
+                if kind != "normal":
+                    raise Unextractable("control flow inside a `matches!` scrutinee")
+                oo = self.opt_offset(e["scrut"], s)
+                if oo is not None:
+                    v = ("opt_at", oo)
+                rest = s
+                for arm in e["arms"]:
+                    if rest is None:
+                        break
+                    m, rest = self.match_pat(arm["pat"], v, rest)
+                    if m is None:
+                        continue
+                    branches = [(True, m)]
+                    if arm.get("guard") is not None:
+                        branches = self.cond(arm["guard"], m)
+                    for t, ms in branches:
+                        if ms is None:
+                            continue
+                        if not t:
+                            rest = join(rest, ms) if rest is not None else ms
+                            continue
+                        outs.append((lit_value(arm["body"]), ms))
+            return outs
         if k == "LetExpr":
             outs = []
             for kind, s, v in self.run(e["init"], st):
